@@ -21,6 +21,16 @@
 #endif
 #define XP_NEXT_CAP(c) (((c) + 1) * 2)
 #define XP_FK_OK (xv_fk >= 0 && xv_fk < XV_NFD)
+/* ghost counters start below XV_CALLS_MAX at the entry of a public function; a callee's contract allows `slack` more, so
+ * that the increments made on the way down never leave the range the callee requires (deeper = more slack) */
+#define XP_C_OK(c, slack) ((c) >= 0 && (c) < XV_CALLS_MAX + (slack))
+#define XP_RANGE(slack) (XP_C_OK(xv_open_cnt, slack) && XP_C_OK(xv_close_calls, slack) && XP_C_OK(xv_epcreate_calls, slack) && XP_C_OK(xv_epctl_calls, slack) && \
+                         XP_C_OK(xv_eventfd_calls, slack) && XP_C_OK(xv_lock_acqs, slack) && XP_C_OK(xv_lock_rels, slack) && XP_FK_OK)
+#define XP_SLACK_PUBLIC 0
+#define XP_SLACK_UPD 8
+#define XP_SLACK_AFD 16
+#define XP_SLACK_REG 32
+#define XP_SLACK_LEAF 64
 
 /* every harness of the unit calls, in this order: xv_ghost_havoc(); xv_fd_havoc(); xv_epoll_havoc(); xv_xpoll_havoc(); */
 int nondet_int(void); long nondet_long(void); _Bool nondet_bool(void); unsigned char nondet_uchar(void);
@@ -30,8 +40,63 @@ static inline void xv_xpoll_havoc(void)
     xv_g_byte = nondet_uchar(); xv_w = nondet_long(); xv_b = nondet_long();
     xv_g_fd = nondet_int(); xv_g_ev = nondet_int(); xv_g_bfree = nondet_bool(); xv_g_bring = nondet_bool();
     xv_g_i0 = nondet_int(); xv_g_i1 = nondet_int(); xv_g_i2 = nondet_int();
-    xv_afd_refs = nondet_int();
+    xv_afd_refs = nondet_int(); xv_bw = nondet_long(); xv_g_bbyte = nondet_uchar(); xv_g_i3 = nondet_int(); xv_g_refs = nondet_int();
 }
+
+
+/* ================================================================================================================ */
+/* active_fd_get / active_fd_put: ONE contract text, used on both sides.                                              */
+/*   XP_AFD   (active_fd.c): enforced on the real bodies; the number of references is the sum of the nodes' cnt.       */
+/*   XP_XPOLL (xpoll.c):     the callees are replaced by it; the number of references is the ghost xv_afd_refs.        */
+/* "Pool descriptor" = an open eventfd with a non-zero counter (xv_evfd_readable): active_fd.c is the only place in    */
+/* the library that calls eventfd(2).                                                                                  */
+/* ================================================================================================================ */
+#define XP_FOR8(P) (P(0) && P(1) && P(2) && P(3) && P(4) && P(5) && P(6) && P(7))
+#define XP_FOR8A(P, a) (P(0, a) && P(1, a) && P(2, a) && P(3, a) && P(4, a) && P(5, a) && P(6, a) && P(7, a))
+#define XP_POOL_FD(d) (XV_FD_OURS(d) && xv_evfd_readable[d])
+/* descriptor-table entry i (descriptor, interest-list entry, eventfd flag) is what it was.  Stated for each of the XV_NFD
+ * slots (XP_FOR8), not for a ghost index: the callers need it at descriptors they compute (their epoll instance, ...) */
+#define XP_SLOT_SAME(i) (xv_fdt.e[i].open == __CPROVER_old(xv_fdt.e[i].open) && xv_fdt.e[i].nonblock == __CPROVER_old(xv_fdt.e[i].nonblock) && \
+                         xv_fdt.e[i].seqpacket == __CPROVER_old(xv_fdt.e[i].seqpacket) && xv_ep[i].in == __CPROVER_old(xv_ep[i].in) && \
+                         xv_ep[i].mask == __CPROVER_old(xv_ep[i].mask) && xv_evfd_readable[i] == __CPROVER_old(xv_evfd_readable[i]))
+#define XP_ALL_SLOTS_SAME XP_FOR8(XP_SLOT_SAME)
+#define XP_LOCK_ONCE (!xv_lock_held && xv_lock_acqs == __CPROVER_old(xv_lock_acqs) + 1 && xv_lock_rels == __CPROVER_old(xv_lock_rels) + 1)
+
+#define AFD_REQ (XP_RANGE(XP_SLACK_AFD) && !xv_lock_held && XA_REFS_NOW == xv_g_refs && xv_g_refs >= 0 && xv_g_refs < XV_CALLS_MAX)
+#define AFD_ASSIGNS xv_errno, XV_EVENTFD_ASSIGNS, XV_CLOSE_ASSIGNS, XV_LOCK_ASSIGNS
+
+/* slot i: if the returned descriptor is i, it either was a pool descriptor already (and nothing about it changed) or the
+ * slot was free (a brand-new descriptor, in no interest list) */
+#define AFD_GET_SLOT(i) (__CPROVER_return_value == (i) ==> \
+        (__CPROVER_old(xv_fdt.e[i].open) ? (__CPROVER_old(xv_evfd_readable[i]) && xv_ep[i].in == __CPROVER_old(xv_ep[i].in) && xv_ep[i].mask == __CPROVER_old(xv_ep[i].mask) && \
+                                            xv_eventfd_calls == __CPROVER_old(xv_eventfd_calls) && xv_open_cnt == __CPROVER_old(xv_open_cnt)) \
+                                         : (!xv_ep[i].in && xv_eventfd_calls == __CPROVER_old(xv_eventfd_calls) + 1 && xv_open_cnt == __CPROVER_old(xv_open_cnt) + 1)))
+/* a reference to an always-readable, non-blocking pool descriptor -- or -1 */
+#ifdef XP_DEBUG_NOFAIL
+#define XP_DBG_M1 0
+#else
+#define XP_DBG_M1 (__CPROVER_return_value == -1)
+#endif
+#define AFD_GET_RV (XP_DBG_M1 || (__CPROVER_return_value >= 0 && __CPROVER_return_value < XV_NFD && XP_POOL_FD(__CPROVER_return_value) && \
+                    xv_fdt.e[__CPROVER_return_value].nonblock))
+/* success: one more reference, errno untouched, at most one new descriptor (and then it is the one returned), nothing closed */
+#define AFD_GET_OK (__CPROVER_return_value >= 0 ==> (XA_REFS_NOW == xv_g_refs + 1 && xv_errno == __CPROVER_old(xv_errno) && XP_FOR8(AFD_GET_SLOT) && \
+                    xv_open_cnt >= __CPROVER_old(xv_open_cnt) && xv_open_cnt <= __CPROVER_old(xv_open_cnt) + 1 && xv_close_calls == __CPROVER_old(xv_close_calls)))
+/* failure: only because eventfd(2) failed; reported as -1 with its errno; nothing acquired, nothing changed, nothing closed */
+#define AFD_GET_FAIL (__CPROVER_return_value == -1 ==> (XA_REFS_NOW == xv_g_refs && xv_eventfd_calls == __CPROVER_old(xv_eventfd_calls) + 1 && xv_errno > 0 && \
+                      xv_open_cnt == __CPROVER_old(xv_open_cnt) && xv_close_calls == __CPROVER_old(xv_close_calls) && XP_ALL_SLOTS_SAME))
+#define AFD_GET_FRAME_SLOT(i) (__CPROVER_return_value != (i) ==> XP_SLOT_SAME(i))
+#define AFD_GET_FRAME (XP_FOR8(AFD_GET_FRAME_SLOT) && xv_eventfd_calls >= __CPROVER_old(xv_eventfd_calls) && xv_eventfd_calls <= __CPROVER_old(xv_eventfd_calls) + 1)
+
+/* put: the caller holds a reference to pool descriptor fd */
+#define AFD_PUT_REQ(fd) (AFD_REQ && xv_g_refs >= 1 && (fd) >= 0 && (fd) < XV_NFD && XP_POOL_FD(fd))
+#define AFD_PUT_KEPT (xv_close_calls == __CPROVER_old(xv_close_calls) && xv_open_cnt == __CPROVER_old(xv_open_cnt) && XP_ALL_SLOTS_SAME)
+#define AFD_PUT_FRAME_SLOT(i, fd) ((fd) != (i) ==> XP_SLOT_SAME(i))
+#define AFD_PUT_CLOSED(fd) (xv_close_calls == __CPROVER_old(xv_close_calls) + 1 && xv_close_fd == (fd) && xv_open_cnt == __CPROVER_old(xv_open_cnt) - 1 && \
+                            !xv_fdt.e[fd].open && XP_FOR8A(AFD_PUT_FRAME_SLOT, fd))
+/* one reference less; the descriptor is closed -- exactly it, exactly once -- or nothing is; errno survives */
+#define AFD_PUT_POST(fd) (XA_REFS_NOW == xv_g_refs - 1 && (AFD_PUT_KEPT || AFD_PUT_CLOSED(fd)) && xv_errno == __CPROVER_old(xv_errno) && \
+                          xv_eventfd_calls == __CPROVER_old(xv_eventfd_calls))
 
 /* ================================================================================================================ */
 #ifdef XP_XPOLL
@@ -55,16 +120,17 @@ static inline void xv_xpoll_havoc(void)
 #define XP_J_WELLFORMED(x) (XP_J_IN(x) ==> ((x)->fd_regs[xv_j].fd >= -1 && ((x)->fd_regs[xv_j].fd >= 0 ==> (x)->fd_regs[xv_j].event >= 0)))
 /* witness: when the table is not full, slot xv_w is free (num_fd_regs counts the used slots, so one exists) */
 #define XP_FREE_WITNESS(x) ((x)->num_fd_regs < (x)->fd_regs_capacity ==> (XP_W_IN(x) && (x)->fd_regs[xv_w].fd == -1))
-/* descriptor fd is in no slot (needed at the slot find_fd WOULD return: constant-bound quantifier) */
-#ifdef XP_NOQ
-#define XP_ABSENT(x, d) 1
-#else
-#define XP_ABSENT(x, d) __CPROVER_forall { int q_; (0 <= q_ && q_ < XP_CAP_MAX) ==> (q_ < (x)->fd_regs_capacity ==> (x)->fd_regs[q_].fd != (d)) }
+/* descriptor d is in no slot.  Needed at the slot find_fd WOULD return, so a ghost index does not do: a quantifier with
+ * CONSTANT bounds, which CBMC expands.  The expansion costs array-theory constraints quadratic in the bound, so contracts
+ * that need absence explore capacities up to XP_QCAP only (64: 51 s; 256: 400 s; 1024: out of memory) */
+#ifndef XP_QCAP
+#define XP_QCAP 64
 #endif
+#define XP_ABSENT(x, d) ((x)->fd_regs_capacity <= XP_QCAP && \
+                         __CPROVER_forall { int q_; (0 <= q_ && q_ < XP_QCAP) ==> (q_ < (x)->fd_regs_capacity ==> (x)->fd_regs[q_].fd != (d)) })
 
 /* ---- the socket's epoll instance and the ghost interest list ------------------------------------------------------ */
 #define XP_EPFD_OK(x) ((x)->epoll_fd == xv_epfd && XV_FD_OURS(xv_epfd) && !xv_evfd_readable[xv_epfd])
-#define XP_GHOSTS_OK (XV_FD_GHOST_RANGE && XV_EP_GHOST_RANGE && XP_FK_OK)
 /* registration (d, ev) agrees with the kernel: d is an open descriptor (not the epoll instance itself) that is in the
  * interest list iff ev != 0, with exactly the mask ev */
 #define XP_LIVE(d, ev) (XV_FD_OURS(d) && (d) != xv_epfd && (ev) >= 0 && xv_ep[d].in == ((ev) != 0) && ((ev) != 0 ==> xv_ep[d].mask == (uint32_t)(ev)))
@@ -78,6 +144,7 @@ static inline void xv_xpoll_havoc(void)
 #define XP_EP_SAME_EXCEPT(d) ((XP_FK_OK && xv_fk != (d)) ==> XP_EP_FK_SAME)
 #define XP_EP_SAME (XP_FK_OK ==> XP_EP_FK_SAME)
 #define XP_EPCTL_NONE (xv_epctl_calls == __CPROVER_old(xv_epctl_calls))
+#define XP_EPCTL_AT_MOST_ONE (xv_epctl_calls >= __CPROVER_old(xv_epctl_calls) && xv_epctl_calls <= __CPROVER_old(xv_epctl_calls) + 1)
 #define XP_EPCTL_ONE(op, d) (xv_epctl_calls == __CPROVER_old(xv_epctl_calls) + 1 && xv_epctl_op == (op) && xv_epctl_fd == (d))
 
 /* ---- xpoll_get_fd (C16) ------------------------------------------------------------------------------------------- */
@@ -125,12 +192,16 @@ __CPROVER_requires(XP_FRESH(xpoll) && XP_REGS_RANGE(xpoll))
 __CPROVER_requires(XP_REGS_MEM(xpoll))
 __CPROVER_requires(XP_FREE_WITNESS(xpoll) && XP_RB_BOUND(xpoll))
 __CPROVER_requires(xpoll->fd_regs_capacity == xv_g_i0 && xpoll->num_fd_regs == xv_g_i1)
-__CPROVER_assigns(xpoll->fd_regs, xpoll->fd_regs_capacity, xpoll->num_fd_regs)
-__CPROVER_assigns(xpoll->fd_regs_capacity > 0: __CPROVER_object_whole(xpoll->fd_regs))
-__CPROVER_frees(xpoll->fd_regs)
+/* the array pointer and the capacity change ONLY when the table is full (conditional targets: a pointer that a replaced
+ * call havocs and the ensures clause merely equates with its old value is not dereferenceable for CBMC) */
+__CPROVER_assigns(xpoll->num_fd_regs)
+__CPROVER_assigns(xpoll->num_fd_regs == xpoll->fd_regs_capacity: xpoll->fd_regs, xpoll->fd_regs_capacity)
+__CPROVER_frees(xpoll->num_fd_regs == xpoll->fd_regs_capacity: xpoll->fd_regs)
 __CPROVER_ensures(xpoll->num_fd_regs == xv_g_i1 + 1 && xpoll->num_fd_regs <= xpoll->fd_regs_capacity)
-/* the table grows only when it is full, and then to (capacity + 1) * 2 */
+/* the table grows only when it is full, and then to (capacity + 1) * 2: a fresh array; otherwise the array stays where it is */
 __CPROVER_ensures(xpoll->fd_regs_capacity == (xv_g_i1 == xv_g_i0 ? XP_NEXT_CAP(xv_g_i0) : xv_g_i0))
+__CPROVER_ensures((xv_g_i1 == xv_g_i0 ==> __CPROVER_is_fresh(xpoll->fd_regs, sizeof(struct xpoll_fd_reg) * (size_t)xpoll->fd_regs_capacity)) && \
+                  (xv_g_i1 != xv_g_i0 ==> xpoll->fd_regs == __CPROVER_old(xpoll->fd_regs)))
 /* the slot handed out is inside the table and free; when the table grew it is the first new slot */
 __CPROVER_ensures(__CPROVER_return_value >= 0 && __CPROVER_return_value < xpoll->fd_regs_capacity && xpoll->fd_regs[__CPROVER_return_value].fd == -1)
 __CPROVER_ensures(xv_g_i1 == xv_g_i0 ==> __CPROVER_return_value == xv_g_i0)
@@ -142,7 +213,7 @@ __CPROVER_ensures((xv_j >= xv_g_i0 && xv_j < xpoll->fd_regs_capacity) ==> xpoll-
 /* ---- reg_epoll_mod: bring the kernel's entry for reg->fd from mask reg->event to mask new_event ---------------------- */
 static void reg_epoll_mod(struct xpoll *xpoll, struct xpoll_fd_reg *reg, int new_event)
 __CPROVER_requires(XP_FRESH(xpoll) && __CPROVER_is_fresh(reg, sizeof(struct xpoll_fd_reg)))
-__CPROVER_requires(XP_GHOSTS_OK && XP_EPFD_OK(xpoll) && new_event >= 0 && reg->event >= 0 && reg->fd >= 0)
+__CPROVER_requires(XP_RANGE(XP_SLACK_LEAF) && XP_EPFD_OK(xpoll) && new_event >= 0 && reg->event >= 0 && reg->fd >= 0)
 __CPROVER_requires(XP_LIVE(reg->fd, reg->event) || (new_event == 0 && XP_GONE(reg->fd)))
 __CPROVER_assigns(reg->event, XV_EPCTL_ASSIGNS)
 /* PO[C04,C16] reg_epoll_mod.kernel_mask_exact: afterwards the interest list holds the descriptor with EXACTLY the requested mask; mask 0 = not in the list */
@@ -165,29 +236,34 @@ __CPROVER_ensures(xv_errno == __CPROVER_old(xv_errno))
 int xpoll_fd_reg_add(struct xpoll *xpoll, int fd, int event)
 __CPROVER_requires(XP_FRESH(xpoll) && XP_REGS_RANGE(xpoll))
 __CPROVER_requires(XP_REGS_MEM(xpoll))
-__CPROVER_requires(XP_GHOSTS_OK && XP_EPFD_OK(xpoll) && event >= 0 && fd >= 0 && XP_LIVE(fd, 0))
+/* caller obligation, checked by the code with ut_assert (abort): a valid descriptor */
+__CPROVER_requires(fd >= 0)
+__CPROVER_requires(XP_RANGE(XP_SLACK_REG) && XP_EPFD_OK(xpoll) && event >= 0 && XP_LIVE(fd, 0))
 __CPROVER_requires(XP_ABSENT(xpoll, fd))
 __CPROVER_requires(XP_FREE_WITNESS(xpoll) && XP_RB_BOUND(xpoll) && XP_J_BOUND(xpoll))
 __CPROVER_requires(xpoll->fd_regs_capacity == xv_g_i0 && xpoll->num_fd_regs == xv_g_i1)
-__CPROVER_assigns(xpoll->fd_regs, xpoll->fd_regs_capacity, xpoll->num_fd_regs, XV_EPCTL_ASSIGNS)
-__CPROVER_assigns(xpoll->fd_regs_capacity > 0: __CPROVER_object_whole(xpoll->fd_regs))
-__CPROVER_frees(xpoll->fd_regs)
+__CPROVER_assigns(xpoll->num_fd_regs, XV_EPCTL_ASSIGNS)
+__CPROVER_assigns(xpoll->num_fd_regs == xpoll->fd_regs_capacity: xpoll->fd_regs, xpoll->fd_regs_capacity)
+__CPROVER_assigns(xpoll->num_fd_regs < xpoll->fd_regs_capacity: __CPROVER_object_whole(xpoll->fd_regs))
+__CPROVER_frees(xpoll->num_fd_regs == xpoll->fd_regs_capacity: xpoll->fd_regs)
 /* the registration: id inside the table, slot holds (fd, event), one more registration, growth only when full */
 __CPROVER_ensures(__CPROVER_return_value >= 0 && __CPROVER_return_value < xpoll->fd_regs_capacity)
 __CPROVER_ensures(xpoll->fd_regs[__CPROVER_return_value].fd == fd && xpoll->fd_regs[__CPROVER_return_value].event == event)
 __CPROVER_ensures(xpoll->num_fd_regs == xv_g_i1 + 1 && xpoll->num_fd_regs <= xpoll->fd_regs_capacity)
 __CPROVER_ensures(xpoll->fd_regs_capacity == (xv_g_i1 == xv_g_i0 ? XP_NEXT_CAP(xv_g_i0) : xv_g_i0))
+__CPROVER_ensures((xv_g_i1 == xv_g_i0 ==> __CPROVER_is_fresh(xpoll->fd_regs, sizeof(struct xpoll_fd_reg) * (size_t)xpoll->fd_regs_capacity)) && \
+                  (xv_g_i1 != xv_g_i0 ==> xpoll->fd_regs == __CPROVER_old(xpoll->fd_regs)))
 /* PO[C04,C16] xpoll_fd_reg_add.kernel_mask_exact: the kernel watches fd for exactly `event`; event 0: fd is not in the interest list */
 __CPROVER_ensures(XP_KERNEL_HAS(fd, event))
 /* PO[C16] xpoll_fd_reg_add.others_untouched: no other descriptor's kernel entry changes */
 __CPROVER_ensures(XP_EP_SAME_EXCEPT(fd))
 /* PO[C04] xpoll_fd_reg_add.other_slots_untouched: the slot used was free (or is new); every other old slot keeps its content, every other new slot is free */
 __CPROVER_ensures((xv_j >= 0 && xv_j < xv_g_i0 && xv_j == __CPROVER_return_value) ==> xv_g_fd == -1)
-__CPROVER_ensures((xv_keep < (size_t)xv_g_i0 * sizeof(struct xpoll_fd_reg) && xv_keep / sizeof(struct xpoll_fd_reg) != (size_t)__CPROVER_return_value) ==> XP_RB(xpoll) == xv_g_byte)
+__CPROVER_ensures((xv_keep < (size_t)xv_g_i0 * sizeof(struct xpoll_fd_reg) && !(xv_keep >= (size_t)__CPROVER_return_value * sizeof(struct xpoll_fd_reg) && xv_keep < ((size_t)__CPROVER_return_value + 1) * sizeof(struct xpoll_fd_reg))) ==> XP_RB(xpoll) == xv_g_byte)
 __CPROVER_ensures((xv_j >= xv_g_i0 && xv_j < xpoll->fd_regs_capacity && xv_j != __CPROVER_return_value) ==> xpoll->fd_regs[xv_j].fd == -1)
 /* PO[C16] xpoll_fd_reg_add.fd_stable: the socket's descriptor is not replaced */
 __CPROVER_ensures(xpoll->epoll_fd == __CPROVER_old(xpoll->epoll_fd))
-__CPROVER_ensures(xv_errno == __CPROVER_old(xv_errno))
+__CPROVER_ensures(xv_errno == __CPROVER_old(xv_errno) && XP_EPCTL_AT_MOST_ONE)
 ;
 
 /* ---- xpoll_fd_reg_mod / del / del_if_valid --------------------------------------------------------------------------- */
@@ -197,7 +273,7 @@ __CPROVER_ensures(xv_errno == __CPROVER_old(xv_errno))
 void xpoll_fd_reg_mod(struct xpoll *xpoll, int reg_idx, int new_event)
 __CPROVER_requires(XP_FRESH(xpoll) && XP_REGS_RANGE(xpoll))
 __CPROVER_requires(XP_REGS_MEM(xpoll))
-__CPROVER_requires(XP_GHOSTS_OK && XP_EPFD_OK(xpoll) && new_event >= 0 && XP_IDX_USED(xpoll, reg_idx))
+__CPROVER_requires(XP_RANGE(XP_SLACK_REG) && XP_EPFD_OK(xpoll) && new_event >= 0 && XP_IDX_USED(xpoll, reg_idx))
 __CPROVER_requires(XP_LIVE(xpoll->fd_regs[reg_idx].fd, xpoll->fd_regs[reg_idx].event) || (new_event == 0 && XP_GONE(xpoll->fd_regs[reg_idx].fd)))
 __CPROVER_assigns(xpoll->fd_regs[reg_idx].event, XV_EPCTL_ASSIGNS)
 /* PO[C04,C16] xpoll_fd_reg_mod.kernel_mask_exact: the kernel watches the registered descriptor for exactly `new_event`; 0: not in the interest list */
@@ -210,13 +286,13 @@ __CPROVER_ensures(xv_j != reg_idx ==> XP_SLOT_J_UNCHANGED(xpoll))
 __CPROVER_ensures(__CPROVER_old(xpoll->fd_regs[reg_idx].event) == new_event ==> XP_EPCTL_NONE)
 /* PO[C16] xpoll_fd_reg_mod.fd_stable */
 __CPROVER_ensures(xpoll->epoll_fd == __CPROVER_old(xpoll->epoll_fd))
-__CPROVER_ensures(xv_errno == __CPROVER_old(xv_errno))
+__CPROVER_ensures(xv_errno == __CPROVER_old(xv_errno) && XP_EPCTL_AT_MOST_ONE)
 ;
 
-#define XP_DEL_REQUIRES(x, i) (XP_GHOSTS_OK && XP_EPFD_OK(x) && XP_IDX_USED(x, i) && (x)->num_fd_regs >= 1 && (x)->fd_regs[i].fd == xv_g_i0 && \
+#define XP_DEL_REQUIRES(x, i) (XP_RANGE(XP_SLACK_REG) && XP_EPFD_OK(x) && XP_IDX_USED(x, i) && (x)->num_fd_regs >= 1 && (x)->fd_regs[i].fd == xv_g_i2 && \
                                (XP_LIVE((x)->fd_regs[i].fd, (x)->fd_regs[i].event) || XP_GONE((x)->fd_regs[i].fd)))
-/* the slot is free again, one registration less, the descriptor (xv_g_i0) is in the interest list no more */
-#define XP_DEL_DONE(x, i) ((x)->fd_regs[i].fd == -1 && (x)->num_fd_regs == __CPROVER_old((x)->num_fd_regs) - 1 && !XV_EP_IN(xv_g_i0))
+/* the slot is free again, one registration less, the descriptor (xv_g_i2) is in the interest list no more */
+#define XP_DEL_DONE(x, i) ((x)->fd_regs[i].fd == -1 && (x)->num_fd_regs == __CPROVER_old((x)->num_fd_regs) - 1 && !XV_EP_IN(xv_g_i2))
 void xpoll_fd_reg_del(struct xpoll *xpoll, int reg_idx)
 __CPROVER_requires(XP_FRESH(xpoll) && XP_REGS_RANGE(xpoll))
 __CPROVER_requires(XP_REGS_MEM(xpoll))
@@ -225,26 +301,192 @@ __CPROVER_assigns(xpoll->fd_regs[reg_idx].event, xpoll->fd_regs[reg_idx].fd, xpo
 /* PO[C08,C16] xpoll_fd_reg_del.removed: slot free, count down by one, descriptor gone from the interest list (also when it had been closed before: EBADF/ENOENT tolerated) */
 __CPROVER_ensures(XP_DEL_DONE(xpoll, reg_idx))
 /* PO[C16] xpoll_fd_reg_del.others_untouched */
-__CPROVER_ensures(XP_EP_SAME_EXCEPT(xv_g_i0))
+__CPROVER_ensures(XP_EP_SAME_EXCEPT(xv_g_i2))
 /* PO[C04] xpoll_fd_reg_del.other_slots_untouched */
 __CPROVER_ensures(xv_j != reg_idx ==> XP_SLOT_J_UNCHANGED(xpoll))
 /* PO[C16] xpoll_fd_reg_del.fd_stable */
 __CPROVER_ensures(xpoll->epoll_fd == __CPROVER_old(xpoll->epoll_fd))
 /* PO[C08] xpoll_fd_reg_del.errno_survives: used on error paths of the transports: the reported errno is not clobbered */
-__CPROVER_ensures(xv_errno == __CPROVER_old(xv_errno))
+__CPROVER_ensures(xv_errno == __CPROVER_old(xv_errno) && XP_EPCTL_AT_MOST_ONE)
 ;
 
 void xpoll_fd_reg_del_if_valid(struct xpoll *xpoll, int reg_id)
 __CPROVER_requires(reg_id >= 0 ==> (XP_FRESH(xpoll) && XP_REGS_RANGE(xpoll)))
 __CPROVER_requires(reg_id >= 0 ==> XP_REGS_MEM(xpoll))
-__CPROVER_requires(XP_GHOSTS_OK && (reg_id >= 0 ==> XP_DEL_REQUIRES(xpoll, reg_id)))
+__CPROVER_requires(XP_RANGE(XP_SLACK_REG) && (reg_id >= 0 ==> XP_DEL_REQUIRES(xpoll, reg_id)))
 __CPROVER_assigns(reg_id >= 0: xpoll->fd_regs[reg_id].event, xpoll->fd_regs[reg_id].fd, xpoll->num_fd_regs, XV_EPCTL_ASSIGNS)
 /* PO[C08,C16] xpoll_fd_reg_del_if_valid.removed */
-__CPROVER_ensures(reg_id >= 0 ==> (XP_DEL_DONE(xpoll, reg_id) && XP_EP_SAME_EXCEPT(xv_g_i0)))
+__CPROVER_ensures(reg_id >= 0 ==> (XP_DEL_DONE(xpoll, reg_id) && XP_EP_SAME_EXCEPT(xv_g_i2)))
 /* PO[C08] xpoll_fd_reg_del_if_valid.invalid_is_noop: a negative id touches nothing (no epoll_ctl, interest list as it was) */
 __CPROVER_ensures(reg_id < 0 ==> (XP_EPCTL_NONE && XP_EP_SAME))
 __CPROVER_ensures((reg_id >= 0 && xv_j != reg_id) ==> XP_SLOT_J_UNCHANGED(xpoll))
+__CPROVER_ensures(xv_errno == __CPROVER_old(xv_errno) && XP_EPCTL_AT_MOST_ONE)
+;
+
+
+/* ================================================================================================================ */
+/* bells                                                                                                              */
+/* ================================================================================================================ */
+#define XA_REFS_NOW xv_afd_refs
+int active_fd_get(void)
+__CPROVER_requires(AFD_REQ)
+__CPROVER_assigns(AFD_ASSIGNS, xv_afd_refs)
+__CPROVER_ensures(AFD_GET_RV)
+__CPROVER_ensures(AFD_GET_OK)
+__CPROVER_ensures(AFD_GET_FAIL)
+__CPROVER_ensures(AFD_GET_FRAME)
+__CPROVER_ensures(XP_LOCK_ONCE)
+;
+void active_fd_put(int fd)
+__CPROVER_requires(AFD_PUT_REQ(fd))
+__CPROVER_assigns(AFD_ASSIGNS, xv_afd_refs)
+__CPROVER_ensures(AFD_PUT_POST(fd))
+__CPROVER_ensures(XP_LOCK_ONCE)
+;
+
+#define XP_BELLS_RANGE(x) ((x)->bell_regs_capacity >= 0 && (x)->bell_regs_capacity <= XP_CAP_MAX && (x)->num_bell_regs >= 0 && \
+                           (x)->num_bell_regs <= (x)->bell_regs_capacity)
+#define XP_BELLS_MEM(x) (((x)->bell_regs_capacity > 0 ==> __CPROVER_is_fresh((x)->bell_regs, sizeof(struct xpoll_bell_reg) * (size_t)(x)->bell_regs_capacity)) && \
+                         ((x)->bell_regs_capacity == 0 ==> (x)->bell_regs == NULL))
+#define XP_B_IN(x) (xv_b >= 0 && xv_b < (x)->bell_regs_capacity)
+#define XP_BW_IN(x) (xv_bw >= 0 && xv_bw < (x)->bell_regs_capacity)
+#define XP_BB(x) (((const uint8_t *)(x)->bell_regs)[xv_keep])
+#define XP_BB_IN(x) (xv_keep < (size_t)(x)->bell_regs_capacity * sizeof(struct xpoll_bell_reg))
+/* (the two members are _Bool: a byte the code has written is 0 or 1; CBMC normalises any other representation on a
+ * byte-wise copy, so the preserved byte is taken to be a proper _Bool) */
+#define XP_BB_BOUND(x) (xv_g_bbyte <= 1 && (XP_BB_IN(x) ==> XP_BB(x) == xv_g_bbyte))
+#define XP_B_BOUND(x) (XP_B_IN(x) ==> ((x)->bell_regs[xv_b].free == xv_g_bfree && (x)->bell_regs[xv_b].ringing == xv_g_bring))
+#define XP_BELL_RINGS(x, i) (!(x)->bell_regs[i].free && (x)->bell_regs[i].ringing)
+/* witness: when the table is not full, bell slot xv_bw is free */
+#define XP_BFREE_WITNESS(x) ((x)->num_bell_regs < (x)->bell_regs_capacity ==> (XP_BW_IN(x) && (x)->bell_regs[xv_bw].free))
+/* num_bell_regs counts the bells in use: none in use, every slot free (slot xv_b) */
+#define XP_B_NONE_IF_ZERO(x) (((x)->num_bell_regs == 0 && XP_B_IN(x)) ==> (x)->bell_regs[xv_b].free)
+/* "some bell rings": an existential, so again a constant-bound quantifier (bell tables up to XP_QCAP slots where it is used) */
+#define XP_SOME_BELL_RINGS(x) __CPROVER_exists { int q_; (0 <= q_ && q_ < XP_QCAP) && (q_ < (x)->bell_regs_capacity && XP_BELL_RINGS(x, q_)) }
+
+static void bell_regs_extend_capacity(struct xpoll *xpoll, int new_capacity)
+__CPROVER_requires(XP_FRESH(xpoll) && XP_BELLS_RANGE(xpoll) && new_capacity > xpoll->bell_regs_capacity && new_capacity <= XP_NEXT_CAP(XP_CAP_MAX))
+__CPROVER_requires(XP_BELLS_MEM(xpoll))
+__CPROVER_requires(XP_BB_BOUND(xpoll))
+__CPROVER_assigns(xpoll->bell_regs, xpoll->bell_regs_capacity)
+__CPROVER_assigns(xpoll->bell_regs_capacity > 0: __CPROVER_object_whole(xpoll->bell_regs))
+__CPROVER_frees(xpoll->bell_regs)
+__CPROVER_ensures(xpoll->bell_regs_capacity == new_capacity)
+__CPROVER_ensures(xv_keep < (size_t)__CPROVER_old(xpoll->bell_regs_capacity) * sizeof(struct xpoll_bell_reg) ==> XP_BB(xpoll) == xv_g_bbyte)
+__CPROVER_ensures((xv_b >= __CPROVER_old(xpoll->bell_regs_capacity) && xv_b < new_capacity) ==> xpoll->bell_regs[xv_b].free)
+__CPROVER_ensures(xpoll->bell_regs[__CPROVER_old(xpoll->bell_regs_capacity)].free)
+;
+
+static int find_free_bell_reg_idx(struct xpoll *xpoll)
+__CPROVER_requires(XP_FRESH(xpoll) && XP_BELLS_RANGE(xpoll))
+__CPROVER_requires(XP_BELLS_MEM(xpoll))
+__CPROVER_assigns()
+__CPROVER_ensures(__CPROVER_return_value >= -1 && __CPROVER_return_value < xpoll->bell_regs_capacity)
+__CPROVER_ensures(__CPROVER_return_value >= 0 ==> xpoll->bell_regs[__CPROVER_return_value].free)
+__CPROVER_ensures((__CPROVER_return_value >= 0 && xv_b >= 0 && xv_b < __CPROVER_return_value) ==> !xpoll->bell_regs[xv_b].free)
+__CPROVER_ensures((__CPROVER_return_value == -1 && XP_B_IN(xpoll)) ==> !xpoll->bell_regs[xv_b].free)
+__CPROVER_ensures((__CPROVER_return_value == -1 && XP_BW_IN(xpoll)) ==> !xpoll->bell_regs[xv_bw].free)
+;
+
+static bool has_ringing_bell(struct xpoll *xpoll)
+__CPROVER_requires(XP_FRESH(xpoll) && XP_BELLS_RANGE(xpoll) && xpoll->bell_regs_capacity <= XP_QCAP)
+__CPROVER_requires(XP_BELLS_MEM(xpoll))
+__CPROVER_assigns()
+/* PO[C04] has_ringing_bell.no_ringing_bell_missed: false only if no bell in use rings (arbitrary slot xv_b) */
+__CPROVER_ensures((!__CPROVER_return_value && XP_B_IN(xpoll)) ==> !XP_BELL_RINGS(xpoll, xv_b))
+/* PO[C16] has_ringing_bell.true_only_if_one_rings: true only if some bell in use rings */
+__CPROVER_ensures(__CPROVER_return_value ==> XP_SOME_BELL_RINGS(xpoll))
+;
+
+#define XP_BGROWS(x) ((x)->num_bell_regs == (x)->bell_regs_capacity)
+static int allocate_bell_reg_idx(struct xpoll *xpoll)
+__CPROVER_requires(XP_FRESH(xpoll) && XP_BELLS_RANGE(xpoll))
+__CPROVER_requires(XP_BELLS_MEM(xpoll))
+__CPROVER_requires(XP_BFREE_WITNESS(xpoll) && XP_BB_BOUND(xpoll) && XP_B_BOUND(xpoll))
+__CPROVER_requires(xpoll->bell_regs_capacity == xv_g_i0 && xpoll->num_bell_regs == xv_g_i1)
+__CPROVER_assigns(xpoll->num_bell_regs)
+__CPROVER_assigns(XP_BGROWS(xpoll): xpoll->bell_regs, xpoll->bell_regs_capacity)
+__CPROVER_assigns(xpoll->num_bell_regs < xpoll->bell_regs_capacity: __CPROVER_object_whole(xpoll->bell_regs))
+__CPROVER_frees(XP_BGROWS(xpoll): xpoll->bell_regs)
+__CPROVER_ensures(xpoll->num_bell_regs == xv_g_i1 + 1 && xpoll->num_bell_regs <= xpoll->bell_regs_capacity)
+__CPROVER_ensures(xpoll->bell_regs_capacity == (xv_g_i1 == xv_g_i0 ? XP_NEXT_CAP(xv_g_i0) : xv_g_i0))
+__CPROVER_ensures((xv_g_i1 == xv_g_i0 ==> __CPROVER_is_fresh(xpoll->bell_regs, sizeof(struct xpoll_bell_reg) * (size_t)xpoll->bell_regs_capacity)) && \
+                  (xv_g_i1 != xv_g_i0 ==> xpoll->bell_regs == __CPROVER_old(xpoll->bell_regs)))
+/* the slot handed out is inside the table and marked in use; it was free (or is the first new one) */
+__CPROVER_ensures(__CPROVER_return_value >= 0 && __CPROVER_return_value < xpoll->bell_regs_capacity && !xpoll->bell_regs[__CPROVER_return_value].free)
+__CPROVER_ensures(xv_g_i1 == xv_g_i0 ==> __CPROVER_return_value == xv_g_i0)
+__CPROVER_ensures((xv_b >= 0 && xv_b < xv_g_i0 && xv_b == __CPROVER_return_value) ==> xv_g_bfree)
+/* every other old byte is what it was (the `free` flag of the slot is byte 0 of its 2 bytes); the other new slots are free */
+__CPROVER_ensures((xv_keep < (size_t)xv_g_i0 * sizeof(struct xpoll_bell_reg) && xv_keep != (size_t)__CPROVER_return_value * sizeof(struct xpoll_bell_reg)) ==> XP_BB(xpoll) == xv_g_bbyte)
+__CPROVER_ensures((xv_b >= xv_g_i0 && xv_b < xpoll->bell_regs_capacity && xv_b != __CPROVER_return_value) ==> xpoll->bell_regs[xv_b].free)
+;
+
+
+/* ---- update_active_fd (C04, C16, C08) --------------------------------------------------------------------------------- */
+#define XP_AFD_ID_OK(x) (XP_IDX_USED(x, (x)->active_fd_reg_id) && (x)->fd_regs[(x)->active_fd_reg_id].fd == (x)->active_fd)
+/* the xpoll holds one reference to pool descriptor active_fd, registered in slot active_fd_reg_id, kernel entry in step */
+#define XP_AFD_INV(x) ((x)->active_fd >= 0 ==> ((x)->active_fd < XV_NFD && XP_POOL_FD((x)->active_fd) && XP_AFD_ID_OK(x) && \
+                       XP_LIVE((x)->active_fd, (x)->fd_regs[(x)->active_fd_reg_id].event) && (x)->num_fd_regs >= 1 && xv_afd_refs >= 1))
+/* while it holds none: every registered descriptor is an open descriptor that is not an eventfd (so neither a pool
+ * descriptor nor a number eventfd(2) could hand out), and no pool descriptor is in this instance's interest list */
+#define XP_REGS_NOT_POOL(x) __CPROVER_forall { int q_; (0 <= q_ && q_ < XP_QCAP) ==> ((q_ < (x)->fd_regs_capacity && (x)->fd_regs[q_].fd >= 0) ==> \
+                            ((x)->fd_regs[q_].fd < XV_NFD && xv_fdt.e[(x)->fd_regs[q_].fd].open && !xv_evfd_readable[(x)->fd_regs[q_].fd])) }
+#define XP_POOL_NOT_WATCHED(i) (XP_POOL_FD(i) ==> !xv_ep[i].in)
+#define XP_AFD_NONE(x) ((x)->active_fd < 0 ==> ((x)->fd_regs_capacity <= XP_QCAP && XP_REGS_NOT_POOL(x) && XP_FOR8(XP_POOL_NOT_WATCHED)))
+/* a reference is held iff there are bells (holds between the public calls) */
+#define XP_AFD_IFF_BELLS(x) (((x)->num_bell_regs == 0 ==> ((x)->active_fd == -1 && (x)->active_fd_reg_id == -1)) && ((x)->num_bell_regs > 0 ==> (x)->active_fd >= 0))
+#define XP_ACQUIRES(x) ((x)->num_bell_regs > 0 && (x)->active_fd < 0)
+#define XP_ACQUIRED(x) ((x)->num_bell_regs > 0 && xv_g_i2 < 0)
+#define XP_RELEASED(x) ((x)->num_bell_regs == 0 && xv_g_i2 >= 0)
+#define XP_UPD_SHAPE(x) (XP_FRESH(x) && XP_REGS_RANGE(x) && XP_BELLS_RANGE(x) && (x)->bell_regs_capacity <= XP_QCAP)
+/* ghost constants: capacity, count, active fd and its slot at entry; references at entry; slot xv_j / byte xv_keep at entry */
+#define XP_UPD_BINDINGS(x) ((x)->fd_regs_capacity == xv_g_i0 && (x)->num_fd_regs == xv_g_i1 && (x)->active_fd == xv_g_i2 && (x)->active_fd_reg_id == xv_g_i3 && \
+                            XP_RB_BOUND(x) && XP_J_BOUND(x))
+#define XP_UPD_REQUIRES(x) (XP_RANGE(XP_SLACK_UPD) && XP_EPFD_OK(x) && AFD_REQ && XP_AFD_INV(x) && XP_FREE_WITNESS(x) && XP_UPD_BINDINGS(x) && XP_B_NONE_IF_ZERO(x))
+#define XP_UPD_ASSIGNS(x) (x)->active_fd, (x)->active_fd_reg_id, (x)->num_fd_regs, XV_EPCTL_ASSIGNS, AFD_ASSIGNS, xv_afd_refs
+#define XP_UPD_GROWS(x) (XP_ACQUIRES(x) && XP_GROWS(x))
+/* C04: a bell in use that rings (arbitrary slot xv_b) => the always-readable pool descriptor is watched for EPOLLIN */
+#define XP_RINGING_WAKES(x) ((XP_B_IN(x) && XP_BELL_RINGS(x, xv_b)) ==> ((x)->active_fd >= 0 && XP_POOL_FD((x)->active_fd) && XP_KERNEL_HAS((x)->active_fd, EPOLLIN)))
+/* C16: the pool descriptor is in the interest list only while some bell rings, and only for EPOLLIN */
+#define XP_QUIET_UNLESS_RINGING(x) (((x)->active_fd >= 0 && XV_EP_IN((x)->active_fd)) ==> (XP_SOME_BELL_RINGS(x) && xv_ep[(x)->active_fd].mask == (uint32_t)EPOLLIN))
+/* the registration table after an update: grown iff a reference was acquired while the table was full */
+#define XP_UPD_REGS_MEM(x) ((x)->fd_regs_capacity == ((XP_ACQUIRED(x) && xv_g_i1 == xv_g_i0) ? XP_NEXT_CAP(xv_g_i0) : xv_g_i0) && \
+        ((XP_ACQUIRED(x) && xv_g_i1 == xv_g_i0) ==> __CPROVER_is_fresh((x)->fd_regs, sizeof(struct xpoll_fd_reg) * (size_t)(x)->fd_regs_capacity)) && \
+        (!(XP_ACQUIRED(x) && xv_g_i1 == xv_g_i0) ==> (x)->fd_regs == __CPROVER_old((x)->fd_regs)))
+#define XP_IN_SLOT(off, i) ((off) >= (size_t)(i) * sizeof(struct xpoll_fd_reg) && (off) < ((size_t)(i) + 1) * sizeof(struct xpoll_fd_reg))
+static void update_active_fd(struct xpoll *xpoll)
+__CPROVER_requires(XP_UPD_SHAPE(xpoll))
+__CPROVER_requires(XP_REGS_MEM(xpoll))
+__CPROVER_requires(XP_BELLS_MEM(xpoll))
+__CPROVER_requires(XP_UPD_REQUIRES(xpoll))
+__CPROVER_requires(XP_AFD_NONE(xpoll))
+__CPROVER_assigns(XP_UPD_ASSIGNS(xpoll))
+__CPROVER_assigns(XP_UPD_GROWS(xpoll): xpoll->fd_regs, xpoll->fd_regs_capacity)
+__CPROVER_assigns(xpoll->fd_regs_capacity > 0: __CPROVER_object_whole(xpoll->fd_regs))
+__CPROVER_frees(XP_UPD_GROWS(xpoll): xpoll->fd_regs)
+__CPROVER_ensures(XP_AFD_IFF_BELLS(xpoll))
+__CPROVER_ensures(XP_UPD_REGS_MEM(xpoll))
+__CPROVER_ensures(XP_AFD_INV(xpoll))
+/* PO[C04] update_active_fd.ringing_bell_wakes: some bell rings => the always-readable descriptor is registered with EPOLLIN (the socket's descriptor is readable) */
+__CPROVER_ensures(XP_RINGING_WAKES(xpoll))
+/* PO[C16] update_active_fd.quiet_unless_ringing: it is in the interest list ONLY if some bell rings (no bell ringing => not registered at all) */
+__CPROVER_ensures(XP_QUIET_UNLESS_RINGING(xpoll))
+/* PO[C08,C16] update_active_fd.released_with_last_bell: no bells left => registration removed, kernel entry gone, reference put back */
+__CPROVER_ensures(XP_RELEASED(xpoll) ==> (!XV_EP_IN(xv_g_i2) && xv_afd_refs == xv_g_refs - 1 && xpoll->num_fd_regs == xv_g_i1 - 1 && xpoll->fd_regs[xv_g_i3].fd == -1))
+/* PO[C08] update_active_fd.one_reference: first bell => exactly one reference and one registration acquired; otherwise none acquired, none released, no descriptor made or closed */
+__CPROVER_ensures(XP_ACQUIRED(xpoll) ==> (xv_afd_refs == xv_g_refs + 1 && xpoll->num_fd_regs == xv_g_i1 + 1))
+__CPROVER_ensures((!XP_ACQUIRED(xpoll) && !XP_RELEASED(xpoll)) ==> (xv_afd_refs == xv_g_refs && xpoll->num_fd_regs == xv_g_i1 && xpoll->active_fd == xv_g_i2 && xpoll->active_fd_reg_id == xv_g_i3 && \
+                  xv_eventfd_calls == __CPROVER_old(xv_eventfd_calls) && xv_close_calls == __CPROVER_old(xv_close_calls) && xv_lock_acqs == __CPROVER_old(xv_lock_acqs)))
+/* PO[C16] update_active_fd.others_untouched: kernel entries of all other descriptors are what they were */
+__CPROVER_ensures((XP_FK_OK && xv_fk != xv_g_i2 && xv_fk != xpoll->active_fd) ==> XP_EP_FK_SAME)
+/* PO[C04] update_active_fd.other_slots_untouched: registrations other than the active fd's keep their content */
+__CPROVER_ensures((xv_keep < (size_t)xv_g_i0 * sizeof(struct xpoll_fd_reg) && !(xv_g_i2 >= 0 && XP_IN_SLOT(xv_keep, xv_g_i3)) && \
+                   !(xpoll->active_fd >= 0 && XP_IN_SLOT(xv_keep, xpoll->active_fd_reg_id))) ==> XP_RB(xpoll) == xv_g_byte)
+/* PO[C16] update_active_fd.fd_stable */
+__CPROVER_ensures(xpoll->epoll_fd == __CPROVER_old(xpoll->epoll_fd))
+/* PO[C04] update_active_fd.errno_survives: called from every transport's update step, which must not disturb the result of the operation */
 __CPROVER_ensures(xv_errno == __CPROVER_old(xv_errno))
+__CPROVER_ensures(!xv_lock_held)
 ;
 
 #endif /* XP_XPOLL */
